@@ -8,6 +8,7 @@
 -/
 import EchoVerif.Lemmas.Chain
 import EchoVerif.Lemmas.ChainBytes
+import EchoVerif.Lemmas.PatchBytes
 import EchoVerif.Props.C07
 
 set_option linter.unusedSimpArgs false
@@ -43,16 +44,71 @@ theorem commit_id_binds {Dg : Type} (H : Bytes → Dg) (hH : Function.Injective 
 
 example : Function.Injective (id : Bytes → Bytes) := fun _ _ h => h
 
-/-- **commit_binds** (patch digest, header part): (policy, rule pack, commit status) and the encoded
-    slots ++ ops are determined by the pre-image of `compute_patch_digest_v2`.
-    Full statement (not proved): the tail is itself uniquely parseable into (in_slots, out_slots, ops);
-    it is a u64-counted list of tag-driven records whose variable-width parts carry u64 lengths. -/
-theorem patch_digest_binds_partial (policy policy' : Nat) (rp rp' : Bytes) (st st' : UInt8)
-    (tail tail' : Bytes) (hrp : rp.length = 32) (hrp' : rp'.length = 32)
-    (hpol : policy < 2 ^ 32) (hpol' : policy' < 2 ^ 32)
-    (h : ChainBytes.patchBytesOf policy rp st tail = ChainBytes.patchBytesOf policy' rp' st' tail') :
-    policy = policy' ∧ rp = rp' ∧ st = st' ∧ tail = tail' :=
-  ChainBytes.patchBytesOf_inj policy policy' rp rp' st st' tail tail' hrp hrp' hpol hpol' h
+/-- **patch_digest_binds**: the complete pre-image of `compute_patch_digest_v2` — tag, u16 version,
+    u32 policy, 32-byte rule pack, status byte, then `encode_slots(in)`, `encode_slots(out)`,
+    `encode_ops(ops)` with u64 counts, the extracted tag bytes of all 4 slot kinds, all 8 op kinds,
+    portal init, option markers, attachment owner/plane/value tags and u64-length-prefixed atom bytes —
+    is injective in EVERY field: (policy, rule pack, status, in_slots, out_slots, ops).
+    Proved by prefix-unique parsing of each encoder (`Lemmas/PatchBytes.lean`). -/
+theorem patch_digest_binds (policy policy' : Nat) (rp rp' : Bytes) (st st' : UInt8)
+    (ins ins' outs outs' : List PatchBytes.FSlot) (ops ops' : List PatchBytes.FOp)
+    (hrp : rp.length = 32) (hrp' : rp'.length = 32) (hpol : policy < 2 ^ 32) (hpol' : policy' < 2 ^ 32)
+    (h1 : PatchBytes.wfList PatchBytes.FSlot.wf ins) (h1' : PatchBytes.wfList PatchBytes.FSlot.wf ins')
+    (h2 : PatchBytes.wfList PatchBytes.FSlot.wf outs) (h2' : PatchBytes.wfList PatchBytes.FSlot.wf outs')
+    (h3 : PatchBytes.wfList PatchBytes.FOp.wf ops) (h3' : PatchBytes.wfList PatchBytes.FOp.wf ops')
+    (h : PatchBytes.patchBytesFull policy rp st ins outs ops
+       = PatchBytes.patchBytesFull policy' rp' st' ins' outs' ops') :
+    policy = policy' ∧ rp = rp' ∧ st = st' ∧ ins = ins' ∧ outs = outs' ∧ ops = ops' :=
+  PatchBytes.patchBytesFull_inj policy policy' rp rp' st st' ins ins' outs outs' ops ops'
+    hrp hrp' hpol hpol' h1 h1' h2 h2' h3 h3' h
+
+/-- With a collision-free hash the patch digest itself binds every field of the patch contents. -/
+theorem patch_digest_id_binds {Dg : Type} (H : Bytes → Dg) (hH : Function.Injective H)
+    (policy policy' : Nat) (rp rp' : Bytes) (st st' : UInt8)
+    (ins ins' outs outs' : List PatchBytes.FSlot) (ops ops' : List PatchBytes.FOp)
+    (hrp : rp.length = 32) (hrp' : rp'.length = 32) (hpol : policy < 2 ^ 32) (hpol' : policy' < 2 ^ 32)
+    (h1 : PatchBytes.wfList PatchBytes.FSlot.wf ins) (h1' : PatchBytes.wfList PatchBytes.FSlot.wf ins')
+    (h2 : PatchBytes.wfList PatchBytes.FSlot.wf outs) (h2' : PatchBytes.wfList PatchBytes.FSlot.wf outs')
+    (h3 : PatchBytes.wfList PatchBytes.FOp.wf ops) (h3' : PatchBytes.wfList PatchBytes.FOp.wf ops')
+    (h : H (PatchBytes.patchBytesFull policy rp st ins outs ops)
+       = H (PatchBytes.patchBytesFull policy' rp' st' ins' outs' ops')) :
+    policy = policy' ∧ rp = rp' ∧ st = st' ∧ ins = ins' ∧ outs = outs' ∧ ops = ops' :=
+  patch_digest_binds policy policy' rp rp' st st' ins ins' outs outs' ops ops'
+    hrp hrp' hpol hpol' h1 h1' h2 h2' h3 h3' (hH h)
+
+/-- The bytes the driver renders for the correspondence run (whose BLAKE3 is compared with the real
+    `patch_digest` on every generated entry) are this full layout. -/
+theorem patch_digest_layout (p : ChainGraph.Patch)
+    (hin : ∀ s ∈ ChainGraph.canonSlots p.inSlots, s.1 = 1 ∨ s.1 = 2)
+    (hout : ∀ s ∈ ChainGraph.canonSlots p.outSlots, s.1 = 1 ∨ s.1 = 2) :
+    ChainGraph.patchBytes p = PatchBytes.patchBytesFull p.policy (ChainGraph.id32B p.rulePack)
+      Generated.PatchTags.statusCommitted
+      ((ChainGraph.canonSlots p.inSlots).map PatchBytes.embedSlot)
+      ((ChainGraph.canonSlots p.outSlots).map PatchBytes.embedSlot)
+      ((ChainGraph.canonOps p.ops).map PatchBytes.embedOp) :=
+  PatchBytes.patchBytes_full_layout p hin hout
+
+/-- non-vacuity: well-formed values of every shape exist (32-byte ids, a port slot, a portal op,
+    an atom attachment). -/
+example : PatchBytes.wfList PatchBytes.FSlot.wf
+    [.node (ChainGraph.id32B 1) (ChainGraph.id32B 2), .port (ChainGraph.id32B 1) 7,
+     .att { node := false, alpha := false, warp := ChainGraph.id32B 1, loc := ChainGraph.id32B 3 }] := by
+  refine ⟨by decide, ?_⟩
+  intro x hx
+  simp only [List.mem_cons, List.mem_nil_iff, or_false] at hx
+  rcases hx with h | h | h <;> subst h
+  · exact ⟨PatchBytes.id32B_length _, PatchBytes.id32B_length _⟩
+  · exact ⟨PatchBytes.id32B_length _, by decide⟩
+  · exact ⟨PatchBytes.id32B_length _, PatchBytes.id32B_length _⟩
+example : PatchBytes.FOp.wf (.openPortal
+    { node := true, alpha := true, warp := ChainGraph.id32B 1, loc := ChainGraph.id32B 2 }
+    (ChainGraph.id32B 4) (ChainGraph.id32B 5) (.empty (ChainGraph.id32B 6))) :=
+  ⟨⟨PatchBytes.id32B_length _, PatchBytes.id32B_length _⟩, PatchBytes.id32B_length _,
+    PatchBytes.id32B_length _, PatchBytes.id32B_length _⟩
+example : PatchBytes.FOp.wf (.setAttachment
+    { node := true, alpha := true, warp := ChainGraph.id32B 1, loc := ChainGraph.id32B 2 }
+    (some (.atom (ChainGraph.id32B 9) [1, 2, 3]))) :=
+  ⟨⟨PatchBytes.id32B_length _, PatchBytes.id32B_length _⟩, PatchBytes.id32B_length _, by decide⟩
 
 variable {S P D O M : Type} [DecidableEq D] [DecidableEq M] [DecidableEq O]
 variable (sem : Sem S P D O M)
@@ -524,6 +580,137 @@ theorem truncation_prefix (h : Hist S P D O M) (b : Base S) (n t : Nat) (ht : t 
         have hlt : t - 1 < n := by omega
         rw [if_neg ht0, if_neg ht0, List.getElem?_take, if_pos hlt]
 
+/-! ### checkpoint_tamper -/
+
+section CheckpointTamper
+
+/-- One alteration of a retained field of a candidate checkpoint. `histAt j a` replaces the
+    `tick_history` element at ANY index `j` by ANY value (any snapshot field, the receipt, the replay
+    patch); `hist l` replaces the whole list (dropped / duplicated / swapped elements). -/
+inductive CpMutation (S D O M : Type) where
+  | tick (t : Nat)
+  | hash (x : D)
+  | graph (g : S)
+  | histAt (j : Nat) (a : Art D M)
+  | hist (l : List (Art D M))
+  | lastMat (o : O)
+  | txc (n : Nat)
+  | warp (n : Nat)
+  | s0 (s : S)
+  | lastSnap (x : Option (Art D M))
+  | ingress (n : Nat)
+  | errs (n : Nat)
+
+def mutateCp : CpMutation S D O M → Cp S D O M → Cp S D O M
+  | .tick t, c => { c with tick := t }
+  | .hash x, c => { c with hash := x }
+  | .graph g, c => { c with w := { c.w with core := { c.w.core with g := g } } }
+  | .histAt j a, c => { c with w := { c.w with core := { c.w.core with hist := c.w.core.hist.set j a } } }
+  | .hist l, c => { c with w := { c.w with core := { c.w.core with hist := l } } }
+  | .lastMat o, c => { c with w := { c.w with lastMat := o } }
+  | .txc n, c => { c with w := { c.w with txc := n } }
+  | .warp n, c => { c with warp := n }
+  | .s0 s, c => { c with s0 := s }
+  | .lastSnap x, c => { c with ls := x }
+  | .ingress n, c => { c with nIngress := n }
+  | .errs n, c => { c with nErrs := n }
+
+/-- `h` is `h0` after some sequence of checkpoints was accepted by `add_checkpoint`. -/
+def AcceptedFrom (h0 h : Hist S P D O M) : Prop :=
+  ∃ cs : List (Cp S D O M), cs.foldlM (fun h c => addCheckpoint sem h c) h0 = .ok h
+
+theorem addCheckpoint_shape {h h' : Hist S P D O M} {c : Cp S D O M}
+    (ha : addCheckpoint sem h c = .ok h') : h' = { h with cps := insertCp c h.cps } := by
+  unfold addCheckpoint at ha
+  cases hv : validateCp sem h c with
+  | some e => rw [hv] at ha; cases ha
+  | none => rw [hv] at ha; injection ha with ha; exact ha.symm
+
+/-- Whatever checkpoints were accepted on a verifying history, the set is sound and nothing else
+    of the history changed. -/
+theorem acceptedFrom_sound (hR : Function.Injective sem.root) (b : Base S) :
+    ∀ (cs : List (Cp S D O M)) (h0 h : Hist S P D O M),
+      validateBase sem h0 b = none → C07.Verifies sem h0 b → C07.CpSound sem h0 b →
+      cs.foldlM (fun h c => addCheckpoint sem h c) h0 = .ok h →
+      C07.CpSound sem h b ∧ validateBase sem h b = none ∧ C07.Verifies sem h b ∧
+        h.entries = h0.entries ∧ ∀ t, replayRef sem h b t = replayRef sem h0 b t
+  | [], h0, h, hb, hv, hcp, hf => by
+    simp only [List.foldlM] at hf
+    injection hf with hf; subst hf
+    exact ⟨hcp, hb, hv, rfl, fun _ => rfl⟩
+  | c :: rest, h0, h, hb, hv, hcp, hf => by
+    simp only [List.foldlM] at hf
+    cases ha : addCheckpoint sem h0 c with
+    | error e => rw [ha] at hf; cases hf
+    | ok h1 =>
+      rw [ha] at hf
+      have hs := addCheckpoint_shape sem ha
+      have hcp1 := (C07.addCheckpoint_sound sem h0 h1 b c hR hb hv hcp ha).1
+      subst hs
+      have hb1 : validateBase sem { h0 with cps := insertCp c h0.cps } b = none := hb
+      have hv1 : C07.Verifies sem { h0 with cps := insertCp c h0.cps } b := hv
+      obtain ⟨r1, r2, r3, r4, r5⟩ := acceptedFrom_sound hR b rest _ h hb1 hv1 hcp1 hf
+      exact ⟨r1, r2, r3, r4, fun t => (r5 t).trans rfl⟩
+
+/-- **checkpoint_tamper**: take any history `h0` that verifies, any sequence of earlier checkpoints
+    accepted by `add_checkpoint` (giving `h`), and any candidate checkpoint with ANY field altered —
+    claimed tick, state hash, state graph, any `tick_history` element at any index (snapshot, receipt,
+    replay patch) or the whole list, last materialization, tx counter, root warp, initial state, last
+    snapshot, ingress ledger, materialization errors.  Then `add_checkpoint` rejects it with a typed
+    error, or the stored candidate is exactly the replayed state of its tick (with `last_snapshot` =
+    `tick_history.last`, empty ledgers) and EVERY later `replay_worldline_state_at` and every `seek_to`
+    from a cursor holding replayed state — whichever checkpoint it restores from, the candidate
+    included — returns exactly what the checkpoint-free replay of the untampered history returns.
+    Needs injectivity of the state root (for the graph; all metadata is compared field by field). -/
+theorem checkpoint_tamper (hR : Function.Injective sem.root) (h0 h : Hist S P D O M) (b : Base S)
+    (hb : validateBase sem h0 b = none) (hv : C07.Verifies sem h0 b) (h0cps : h0.cps = [])
+    (hacc : AcceptedFrom sem h0 h) (c : Cp S D O M) (m : CpMutation S D O M) :
+    (∃ e, addCheckpoint sem h (mutateCp m c) = .error e) ∨
+    (∃ h', addCheckpoint sem h (mutateCp m c) = .ok h' ∧ h'.entries = h0.entries ∧
+      (mutateCp m c).w = (replayRef sem h0 b (mutateCp m c).tick).1 ∧
+      (mutateCp m c).ls = (mutateCp m c).w.core.hist.getLast? ∧
+      (mutateCp m c).nIngress = 0 ∧ (mutateCp m c).nErrs = 0 ∧
+      (∀ t s, replayRef sem h0 b t = (s, none) → replayAt sem h' b t = .ok s) ∧
+      (∀ (cur : Cursor S D O M) t s, C07.CurInv sem h' b cur → t ≤ cur.pin →
+        replayRef sem h0 b t = (s, none) →
+        ∃ cur', seekTo sem h' b cur t = (cur', none) ∧ cur'.tick = t ∧ cur'.w = s)) := by
+  obtain ⟨cs, hf⟩ := hacc
+  have hcp0 : C07.CpSound sem h0 b := by
+    intro x hx; rw [h0cps] at hx; cases hx
+  obtain ⟨hcp, hbh, hvh, hent, href⟩ := acceptedFrom_sound sem hR b cs h0 h hb hv hcp0 hf
+  cases ha : addCheckpoint sem h (mutateCp m c) with
+  | error e => exact Or.inl ⟨e, rfl⟩
+  | ok h' =>
+    right
+    have hs := addCheckpoint_shape sem ha
+    have hvc : validateCp sem h (mutateCp m c) = none := by
+      unfold addCheckpoint at ha
+      cases hv' : validateCp sem h (mutateCp m c) with
+      | some e => rw [hv'] at ha; cases ha
+      | none => rfl
+    obtain ⟨hle, _, _, _, _, _, _, _, _, hing, herr, hls⟩ := validateCp_none_inv sem h _ hvc
+    obtain ⟨wl, hwl⟩ := hvh
+    obtain ⟨sc, hsc⟩ := replayRef_prefix_ok sem h b h.entries.length (mutateCp m c).tick wl hwl hle
+    have hsound := (C07.checkpoint_sound sem h b (mutateCp m c) sc hR hbh hvc hsc).1
+    obtain ⟨hcp', hent'⟩ := C07.addCheckpoint_sound sem h h' b (mutateCp m c) hR hbh ⟨wl, hwl⟩ hcp ha
+    have hb' : validateBase sem h' b = none := by rw [hs]; exact hbh
+    have href' : ∀ t, replayRef sem h' b t = replayRef sem h0 b t := by
+      intro t; rw [hs]; exact (href t)
+    refine ⟨h', rfl, by rw [hent', hent], ?_, hls, hing, herr, ?_, ?_⟩
+    · rw [← href, hsc]; exact hsound
+    · intro t s hts
+      exact C07.replayAt_eq_ref sem h' b t s hb' hcp' (by rw [href' t]; exact hts)
+    · intro cur t s hinv hpin hts
+      obtain ⟨cur', h1, h2, h3, _⟩ :=
+        C07.seek_path_free sem h' b cur t s hb' hinv hcp' hpin (by rw [href' t]; exact hts)
+      exact ⟨cur', h1, h2, h3⟩
+
+/-- `mutateCp` reaches every checkpoint value: the theorem is about arbitrary candidates. -/
+theorem mutateCp_hist_reaches (c : Cp S D O M) (l : List (Art D M)) :
+    (mutateCp (.hist l) c).w.core.hist = l := rfl
+
+end CheckpointTamper
+
 /-! ### unbound_fields: retained fields that replay accepts in altered form -/
 
 section Unbound
@@ -619,6 +806,28 @@ example : Function.Injective isem.root := fun a b h => by
 example : CommitInjective isem := fun _ _ _ _ _ _ _ _ h => by
   simp only [isem] at h
   injection h with h1 h2 h3 h4; exact ⟨h1, h2, h3, h4⟩
+
+/-! Non-vacuity of `checkpoint_tamper` on the toy instance: its hypotheses hold, the honest
+    candidate is accepted, and candidates with one altered `tick_history` field (plan digest of
+    entry 0 — a field the commit id does not bind), tx counter or last snapshot are rejected. -/
+example : Function.Injective tsem.root := fun _ _ h => h
+example : validateBase tsem (tHist e0) tBase = none := by decide
+example : C07.Verifies tsem (tHist e0) tBase := ⟨(tReplay e0).1, Prod.ext rfl (by decide)⟩
+
+def tCp : Cp Nat Nat (List Nat) (Nat × Nat × Nat) := Cp.ofState tsem tBase 1 (tReplay e0).1
+
+def accepted (c : Cp Nat Nat (List Nat) (Nat × Nat × Nat)) : Bool :=
+  match addCheckpoint tsem (tHist e0) c with
+  | .ok _ => true
+  | .error _ => false
+
+example : accepted tCp = true := by decide
+def tArtAltered : Art Nat (Nat × Nat × Nat) :=
+  { hash := 1017, root := 5, parents := [], pdigest := 1005, policy := 0, tx := 1, rcpt := (1, 0), pm := (77, 12, 13) }
+example : accepted (mutateCp (.histAt 0 tArtAltered) tCp) = false := by decide
+example : accepted (mutateCp (.txc 2) tCp) = false := by decide
+example : accepted (mutateCp (.lastSnap none) tCp) = false := by decide
+example : accepted (mutateCp (.errs 1) tCp) = false := by decide
 
 end Unbound
 
